@@ -66,6 +66,11 @@ def scenario(cachejit, argon, ks_inputs, thorough, idx, seed=1):
             for i in inputs:
                 L.append('Hash v1 %s key=K1' % i)
             L.append('DestroyVm v1')
+    # the version bit switched on LIVE VMs (fast-mode JIT, light interpreter given both a cache and a dataset): the digest must be
+    # the one of the version in force, for every engine
+    L += ['CreateVm v4 CF none d1 v2=0 hard=1 secure=0', 'Hash v4 I1 key=K1', 'SetV2 v4 1', 'Hash v4 I1 key=K1', 'SetV2 v4 0', 'Hash v4 I2 key=K1', 'DestroyVm v4',
+          'CreateVm v4 IL c1 d1 v2=1 hard=0 secure=0', 'Hash v4 I2 key=K1', 'SetV2 v4 0', 'Hash v4 I2 key=K1', 'DestroyVm v4',
+          'CreateVm v4 CL c1 d1 v2=0 hard=0 secure=1', 'Hash v4 I1 key=K1', 'SetV2 v4 1', 'Hash v4 I1 key=K1', 'DestroyVm v4']
     # many seeded inputs through the interpreter and the JIT on the same cache: engine disagreements that need a particular
     # instruction pattern in one of the 8 random programs show only on some inputs
     for v2 in (0, 1):
@@ -96,6 +101,8 @@ def to_cfg_lines(trace, cachejit, argon, build='default'):
             byvm[ev.get('v')] = ev
             out.append(json.dumps({'e': 'vm', 'flags': ev['flags'], 'ok': ev['ok'], 'v2': ev.get('v2', False), 'clsCompiled': ev.get('clsCompiled'), 'clsLight': ev.get('clsLight'),
                                    'clsSoftAes': ev.get('clsSoftAes'), 'clsSecure': ev.get('clsSecure'), 'clsLarge': ev.get('clsLarge')}))
+        elif ev['e'] == 'SetV2' and ev.get('v') in byvm:
+            byvm[ev['v']] = dict(byvm[ev['v']], flags=(byvm[ev['v']]['flags'] | V2) if ev['on'] else (byvm[ev['v']]['flags'] & ~V2))
         elif ev['e'] == 'Hash':
             cur = byvm.get(ev.get('v'), cur)
             out.append(json.dumps({'e': 'hash', 'key': ev['key'], 'input': ev['in'], 'v2': bool(cur.get('flags', 0) & V2), 'out': ev['out'], 'ref': ev['fresh'],
@@ -157,6 +164,11 @@ def run():
         except Exception:
             return 'trace'
     ck.reject('TraceCfg', res, key)
+    # light-mode engines on chosen program buffers: configuration blocks whose dataset offset takes boundary values no hash input reaches
+    # in practice (the offset is 19 random bits per program)
+    from checks import c04
+    lrec = c04.record_vm(ck, wd, ['light'])
+    c04.validate_vm(ck, 'c01light', lrec['light'], 'light-mode interpreter vs light-mode JIT (soft and hard AES) over a real cache on program buffers with directed dataset offsets')
     hs = [json.loads(l) for l in lines if l.startswith('{"e": "hash"')]
     ck.cov['hashes'] = len(hs)
     ck.cov['vm_flag_sets'] = sorted(set(h['vmflags'] % 128 for h in hs))
